@@ -253,6 +253,10 @@ def triage(pid, job, binary):
                 return viols, f"job {job.name} wrote no evidence fragment"
             if ev < job.checks:
                 return viols, f"job {job.name} ran {ev} < {job.checks} cases"
+            inc = (job.frag or {}).get("inconclusive", 0)
+            if inc > max(3, ev // 20):
+                why = "; ".join(((job.frag or {}).get("inconclusive_why") or [])[:2])
+                return viols, f"job {job.name}: {inc} of {ev} cases were inconclusive ({why})"
         return viols, None
     # non-zero exit
     if frag_viol:
